@@ -283,12 +283,18 @@ Theorem rt_Context : RT write_Context read_Context wf_Context.
 Proof.
   intros c rest Hwf. destruct (narrow_Context c Hwf) as [N _].
   destruct Hwf as (modulus & t & o & Ht & Ho & Hm & Hnew).
-  apply Context_new_inv in Hnew. destruct Hnew as (_ & _ & ->).
+  apply Context_new_inv in Hnew. destruct Hnew as (L1 & L2 & ->).
   unfold write_Context, read_Context. cbn [ctx_trace_info ctx_modulus ctx_options] in *. rewrite N.
   rt_next rt_TraceInfo. rt_next rt_u8.
   destruct (Z.eqb_spec (len modulus) 0); [lia|].
   unfold write_bytes, read_vec. erewrite bind_ok by apply read_slice_app.
-  rt_next rt_ProofOptions. reflexivity.
+  rewrite <- (app_nil_r (write_ProofOptions o)), <- app_assoc. cbn [app].
+  rt_next rt_ProofOptions.
+  unfold usize_max.
+  destruct (Z.gtb_spec (ti_length t) (2 ^ 32 - 1)); [lia|].
+  destruct (Z.leb_spec (ti_length t * po_blowup_factor o) (2 ^ 64 - 1)); [|lia].
+  destruct (Z.leb_spec (ti_length t * po_blowup_factor o) (2 ^ 32 - 1)); [|lia].
+  reflexivity.
 Qed.
 
 (* ------------------------------------------------------------------------ Commitments, Queries, OodFrame *)
@@ -341,7 +347,7 @@ Definition wf_FriProofLayer (l : FriProofLayer) : Prop :=
   0 < len (fl_values l) < 2 ^ 32 /\ len (fl_paths l) < 2 ^ 32.
 Definition wf_FriProof (p : FriProof) : Prop :=
   Z.of_nat (length (fri_layers p)) <= 255 /\ Forall wf_FriProofLayer (fri_layers p) /\
-  len (fri_remainder p) < 2 ^ 16 /\ 0 <= fri_num_partitions p < 256.
+  len (fri_remainder p) < 2 ^ 16 /\ 0 <= fri_num_partitions p < 64.
 
 Theorem rt_FriProofLayer : RT write_FriProofLayer read_FriProofLayer wf_FriProofLayer.
 Proof.
@@ -362,7 +368,7 @@ Proof.
   rt_next rt_u8.
   erewrite bind_ok by (apply (rt_many _ _ _ rt_FriProofLayer); exact Hl).
   rt_next (rt_blob 2).
-  rt_next rt_u8. reflexivity.
+  rt_next rt_u8. destruct (Z.geb_spec np 64); [lia | reflexivity].
 Qed.
 
 (* narrow_FriProof: number of layers <= log2(2^32) and remainder of at most 256 elements of at most 48 bytes *)
